@@ -44,6 +44,21 @@ func checkNotifyAlwaysLooks(c *an.Ctx, id string, notifyPub *ssa.Function) {
 		c.Check(ok, id, "notify-always-looks", "Notify looks at the waiter table, under its lock, for every height it is given: no way out before the lock that depends on anything but the heights themselves", notifyPub, r, "", fs)
 	}
 	c.Min(id, "returns of Notify", n, 1)
+	// … and for EVERY height: no trip of the loop over the heights skips the look at the table. A height at or
+	// below the published one is no exception — Init publishes the height of the first batch without
+	// releasing the reader parked at exactly that height, who depends on the Notify that follows.
+	if nf := c.P.Method("store", "heightSub", "notify"); nf != nil {
+		m := 0
+		for _, nc := range callsTo(notifyPub, nf) {
+			h := loopHeaderOf(nc.Block())
+			if h == nil {
+				continue
+			}
+			m++
+			c.Check(everyTripCrosses(h, an.IsCallTo(nf)) && loopLeftOnlyAtHeader(h), id, "notify-skips-no-height", "Notify looks every height it is given up in the waiter table: no trip of its loop skips the look-up (the reader parked at a height that Init has just published is released by nothing else)", notifyPub, nc, "", nil)
+		}
+		c.Min(id, "look-ups in the loop of Notify", m, 1)
+	}
 }
 
 // checkClientMetricsArithmetic (C05.d): "no peer response can crash the client". The client's metrics
